@@ -68,6 +68,16 @@ struct Out {
 
 /// run one operation sequence; `src_len` = None for an infinite source
 fn run_seq(rep: &mut Report, ops: &[Op], src_len: Option<u64>) -> bool {
+    match vmon::catch(std::panic::AssertUnwindSafe(|| run_seq_inner(rep, ops, src_len))) {
+        Ok(ok) => ok,
+        Err(m) => {
+            rep.violation("bus|panic", format!("ops {} source_len {:?}: panicked: {}", enc(ops), src_len, m), format!("len={};ops={}", src_len.map(|l| l as i64).unwrap_or(-1), enc(ops)));
+            false
+        }
+    }
+}
+
+fn run_seq_inner(rep: &mut Report, ops: &[Op], src_len: Option<u64>) -> bool {
     let case = || format!("len={};ops={}", src_len.map(|l| l as i64).unwrap_or(-1), enc(ops));
     let probe = Probe::new();
     let src = match src_len {
@@ -363,7 +373,7 @@ fn main() {
     }
     rep.exhaustive(format!("every legal sequence of send / next(i) / drop(i) / drop-bus-handle operations of length {} over at most 3 outputs, and of length {}-2 over at most 4 outputs ({} maximal sequences), on an infinite source and on sources of length 0, 1, 2", depth, depth, n_seqs));
     // random long sequences
-    let n_rand = cli.t(400u64, 20_000u64);
+    let n_rand = cli.t(400u64, 300_000u64);
     let reps = vmon::par_for(cli.threads, n_rand, 4, |_| Report::new("C13", "w"), |rep, i| {
         let mut rng = Rng::derive(cli.seed, &[13, i]);
         let len = cli.t(1_000, 5_000) + rng.usize_below(1000);
